@@ -1,5 +1,6 @@
 use crate::engine::runner::RunCfg;
 
+pub mod c02;
 pub mod c03;
 pub mod c05;
 pub mod c16;
@@ -7,5 +8,16 @@ pub mod c16;
 pub type RunFn = fn(&RunCfg, Option<&str>) -> i32;
 
 pub fn all() -> Vec<(&'static str, RunFn)> {
-    vec![("C03", c03::run as RunFn), ("C16", c16::run as RunFn), ("C05", c05::run as RunFn)]
+    vec![("C03", c03::run as RunFn), ("C16", c16::run as RunFn), ("C05", c05::run as RunFn), ("C02", c02::run as RunFn)]
+}
+
+/// Entry point of child processes (`harness <ID> --child <seed>`).
+pub fn child(id: &str, seed: u64) -> i32 {
+    match id {
+        "C02" => c02::child(seed),
+        _ => {
+            eprintln!("no child mode for {}", id);
+            2
+        }
+    }
 }
